@@ -3,6 +3,7 @@ import QuantemModel.Lemmas.RadonLinear
 import QuantemModel.Lemmas.RadonPad
 import QuantemModel.Lemmas.RadonSymmetry
 import QuantemModel.Lemmas.RadonLists
+import QuantemModel.Lemmas.RadonPadSpec
 /-!
 C07 — the torch Radon transform / filtered back-projection (Model/Radon.lean: `radonTorch*`,
 `fourierFilterTorch`, `iradonTorch`) is the same real function as the scikit-image reference
@@ -184,6 +185,60 @@ theorem padded_size_spec (N : Nat) :
   ⟨paddedSize_pow2 N, paddedSize_ge N, paddedSize_ge_two_mul N, paddedSize_minimal N⟩
 
 example : paddedSize 33 = 128 ∧ paddedSize 47 = 128 ∧ paddedSize 5 = 64 := by decide
+
+/-- **padded_size_unique**: the specification determines the value — any implementation of "least
+power of two ≥ max(64, 2N)" (torch's float32 `2**ceil(log2(2N))`, NumPy's float64 one, an
+integer loop) returns `paddedSize N`, for every N. -/
+theorem padded_size_unique (N P : Nat) (hP : IsPaddedSize N P) : P = paddedSize N :=
+  isPaddedSize_unique hP (isPaddedSize_paddedSize N)
+
+/-- **padded_size_formula**: for ALL `N` the model's doubling loop equals the closed form both
+libraries write, `max(64, 2 ** ceil(log2(2 N)))` — with the integer ceiling logarithm and with
+the real logarithm. -/
+theorem padded_size_formula (N : Nat) :
+    paddedSize N = max 64 (2 ^ Nat.clog 2 (2 * N)) ∧
+    paddedSize N = max 64 (2 ^ ⌈Real.logb 2 ((2 * N : Nat) : ℝ)⌉₊) :=
+  ⟨paddedSize_eq_clog N, paddedSize_eq_real_formula N⟩
+
+/-- **padded_size_bitlength_differs_iff**: the integer shortcut `max(64, 1 << (2N).bit_length())`
+(least power of two *strictly* above `2N`) differs from the padded size exactly when `2N` is
+itself a power of two ≥ 64 — the exact difference set, for every N. -/
+theorem padded_size_bitlength_differs_iff (N : Nat) :
+    paddedSizeBitLength N ≠ paddedSize N ↔ ∃ k, 6 ≤ k ∧ 2 * N = 2 ^ k :=
+  paddedSizeBitLength_ne_iff N
+
+/-- literal witness: detector size 32 (`2N = 64`): 64 vs 128. -/
+theorem padded_size_bitlength_counterexample : paddedSize 32 = 64 ∧ paddedSizeBitLength 32 = 128 := by
+  refine ⟨by decide, ?_⟩
+  unfold paddedSizeBitLength
+  have : Nat.size (2 * 32) = 7 := by
+    have := @Nat.size_pow 6
+    norm_num at this ⊢
+    exact this
+  rw [this]; norm_num
+
+/-- **filter_step_agree**: the torch and scikit-image filtering steps are the same function of the
+detector row — same padded size (`paddedSize D` for both), same filter (`fourier_filter_agree`
+at that size), same `real(ifft(fft(pad row)·H))[:D]` — for every detector size and filter name. -/
+theorem filter_step_agree (name : FilterName) (D : Nat) (row : List ℝ) :
+    filterRow (fourierFilterTorch name (paddedSize D)) (paddedSize D) D row
+      = filterRow (fourierFilterSk name (paddedSize D)) (paddedSize D) D row :=
+  filterRow_agree name D row
+
+/-- **filter_step_spectral**: the executable list DFT step of Core/Dft.lean *is* the Fourier
+filtering over ℂ: entry `n < N` of `filterRow` is the real part of Mathlib-ℂ
+`idft(fft(pad x) · H)` (Lemmas/Spectral.lean), for every padded size `P ≥ N`, `P ≠ 0`. -/
+theorem filter_step_spectral (filt : List ℝ) (P N : Nat) (row : List ℝ) (hr : row.length = N) (hf : filt.length = P)
+    (hP : N ≤ P) (hP0 : P ≠ 0) (n : Nat) (hn : n < N) :
+    (filterRow filt P N row).getD n 0
+      = (Spectral.idft P (fun k => ((filt.getD k 0 : ℝ) : ℂ) *
+          Spectral.dft P (fun j => ((row.getD j 0 : ℝ) : ℂ)) k) n).re :=
+  filterRow_spectral filt P N row hr hf hP hP0 n hn
+
+example : (filterRow [1, 2, 3, 4] 4 2 [5, 6]).getD 1 0
+    = (Spectral.idft 4 (fun k => ((([1, 2, 3, 4] : List ℝ).getD k 0 : ℝ) : ℂ) *
+        Spectral.dft 4 (fun j => ((([5, 6] : List ℝ).getD j 0 : ℝ) : ℂ)) k) 1).re :=
+  filter_step_spectral _ 4 2 _ rfl rfl (by norm_num) (by norm_num) 1 (by norm_num)
 
 /-- the Fourier filter has exactly the padded size, and filtering a detector row of length `N`
 with a filter of length `P ≥ N` returns a row of length `N` (`[:N]` after the inverse FFT). -/
